@@ -6,6 +6,7 @@
 (*  large   |req| in {999,1000,1001} (unbatched / batched switch of extract_with_config), 1500, 5001   *)
 (*          (adaptive batch size), T up to 32, B in {1,7,10,|req|,|req|+1}, on the 1300-file archive   *)
 (*          with multi-sector and encrypted members;                                                  *)
+(*  gen     one path re-used for 3 generations of an archive; all single-archive interfaces before / after each replacement *)
 (*  chain   PatchChain::from_archives_parallel / add_archives_parallel = sequential add_archive (order, ties, winner) *)
 (*  multi   parallel::extract_from_multiple_archives over 1..5 archives, one of them lacking the file. *)
 EXTENDS Integers, Sequences, SequencesExt, FiniteSets, Json, IOUtils, TLC
@@ -47,7 +48,14 @@ MultiSel == {c \in Multi : c.miss # "none" => c.n > 0}
 ChainPar == { Cfg(i, "M", t, pat, n, FALSE, m, "none") : i \in {"chain_par", "chain_addpar"}, t \in {1, 3, 8}, pat \in 0..4,
               n \in 0..6, m \in {"none", "middle"} }
 ChainSel == {c \in ChainPar : (c.miss = "middle" => c.n > 0) /\ (Thorough \/ c.t # 1)}
-Cases == SetToSeq(ChainSel) \o SetToSeq(SmallSel) \o SetToSeq(OthersSel) \o SetToSeq(Matching) \o SetToSeq(Big) \o SetToSeq(MultiSel)
+\* generations: the path of archive "G" is re-used for 3 successive archives with other contents and file sets; every
+\* configuration below is run at every generation by the SAME process and the same thread pools (miss = "gone": a name
+\* of the previous generation that the current one no longer has; b = batch size / predicate residue)
+GenCfg == { Cfg(i, "G", t, b, n, s, m, "none") : i \in {"with_config", "files_parallel", "files_batched", "process", "matching"},
+            t \in {1, 3, 8}, b \in {1, 3}, n \in {1, 8, 15}, s \in BOOLEAN, m \in {"none", "gone"} }
+GenSel == {c \in GenCfg : /\ (c.iface # "with_config" => ~c.skip) /\ (c.iface \notin {"files_batched", "matching"} => c.b = 1)
+                           /\ (c.iface = "matching" => (c.n = 8 /\ c.miss = "none"))}
+Cases == SetToSeq(GenSel) \o SetToSeq(ChainSel) \o SetToSeq(SmallSel) \o SetToSeq(OthersSel) \o SetToSeq(Matching) \o SetToSeq(Big) \o SetToSeq(MultiSel)
 ASSUME ndJsonSerialize(IOEnv.CASES, Cases)
 ASSUME PrintT(<<"GENERATED", Len(Cases), Cardinality(SmallSel), Cardinality(OthersSel), Cardinality(Big)>>)
 =============================================================================
